@@ -156,6 +156,8 @@ def run(tier, seed, only=None):
                 envf = model.FillEnv(env)
                 v = f(envf)
                 k = ob.meta["kind"]
+                if not np.isfinite(v):
+                    return True, "CDv = %r (not finite)" % v
                 if k == "pos":
                     return v <= 0, "CDv = %.9g" % v
                 key = "re[0]" if k == "dre" else "t_over_c[%d]" % ob.meta["e"]
